@@ -314,7 +314,7 @@ def main():
 
 COMMON_ASSUMPTIONS = [
     'Verus, Z3, vstd, rustc are sound; Kani/CBMC where a harness is listed',
-    'the generated file is /repo/src copied token for token except rewrite rules R1..R27 (DESIGN.md 2.2 and 13); hit counts in coverage.rewrite_rule_hits',
+    'the generated file is /repo/src copied token for token except rewrite rules R1..R28 (DESIGN.md 2.2 and 13); hit counts in coverage.rewrite_rule_hits',
     'assumed std contracts (spec/std_specs.rs): VecDeque::{as_slices,capacity,shrink_to,shrink_to_fit}, Vec::capacity, Vec::extend(&[u8]), HashMap<String,_> looked up by &str (String key model, view injectivity), Result::unwrap_or_else, convert::identity, mem::take, str::from_utf8, Instant::now, iter::once, BTreeSet::{first,pop_first,len}, BTreeSet::range((Excluded(k),Unbounded)).next() (R26 shim), HashMap::get_mut, fs::remove_file, <File as Seek>::seek(SeekFrom::Start(n)); bytes::Buf (R10), (start..).zip(it) (R19) and RangeBounds::{start_bound,end_bound} through a generic bound = the spec value vstd gives (R22) in spec/vshim.rs; derived Default/PartialEq impls are field-wise',
     'shims of R6/R7 (spec/vshim.rs): u16/u32/u64 to/from little-endian bytes = vstd::bytes specs; Vec::drain(..n) / VecDeque::drain(..n) remove the first n elements',
     'crc32 is an uninterpreted function of (payload, type byte) (R9); nothing is assumed about it',
